@@ -292,7 +292,7 @@ func ComparableTo(pkg *Package, varg, targ *Element) bool {
 		}
 	}
 	if getUnderlying(pkg, V) == getUnderlying(pkg, T) {
-		return true
+		return types.Comparable(V) // slice, map and func values can only be compared to nil
 	}
 	return AssignableConv(pkg, V, T, varg) || AssignableConv(pkg, T, V, targ)
 }
